@@ -345,6 +345,8 @@ Definition run_sx (c : sx) : sx :=
     class 2: a closing brace inside a string literal (rule_split_regex ends a rule at the first '}');
     class 3: blank, "then", blank inside a string literal of the when clause (when_then_regex splits there);
     class 4: a comment containing a closing brace or a rule header (the file is split before comments are removed);
+    class 6: an opening brace inside the description string of a rule header (rule_regex takes the attributes from `[^{]*`, the
+             text up to the first opening brace): the attributes after the description are lost;
     class 5: a method-call action `$Object.method(args)` comes back as the custom action `method(args)` - the object is
              lost (method_call_regex starts with `\$`, which the regex engine never matches); recognised by the observation
              being EXACTLY the expectation with every method call replaced by that custom action *)
@@ -377,10 +379,14 @@ Fixpoint has_then (s : str) : bool :=
   | c :: r => (ws_unicode c && str_starts r s_then && match skipn 4 r with d :: _ => ws_unicode d | [] => false end) || has_then r
   end.
 
-Definition file_class (grs : list grule) (feats : list sx) : Z :=
-  if existsb (fun r => existsb (memc 125) (rule_strs r)) grs then 2
+Definition descr_of (s : sx) : list str :=
+  match s with L (_ :: _ :: L [d] :: _) => match getZs d with Some x => [x] | None => [] end | _ => [] end.
+
+Definition file_class (grs : list grule) (descs : list str) (feats : list sx) : Z :=
+  if existsb (fun r => existsb (memc 125) (rule_strs r)) grs || existsb (memc 125) descs then 2
   else if existsb (fun r => existsb has_then (scond_strs (strip (g_cond r)))) grs then 3
   else if existsb (fun f => match f with A 4 => true | _ => false end) feats then 4
+  else if existsb (memc 123) descs then 6
   else 0.
 
 (** verdict for a rule file: 1 = the parsed rules are exactly those written, in order; otherwise the number
@@ -400,7 +406,7 @@ Definition ok_sx (c o : sx) : Z :=
                        else if existsb has_method grs
                                && match mapO exp_rule (map demethod_rule grs) with Some es' => sx_eqb o (L [A 0; L es']) | None => false end
                             then 5
-                            else file_class grs feats
+                            else file_class grs (flat_map descr_of rs) feats
           | None => 0 end
       | None => 0 end
   | L [A 1; _; g] => match dec_gcond g with
